@@ -90,6 +90,11 @@ class C17(CheckBase):
             starts = [1] + cuts
             ends = cuts + [tracks]
             tv = rng.below(len(starts))
+            if len(starts) < 8 and rng.chance(0.25):
+                # a degenerate (but representable) volume table: the next letter starts on the same track,
+                # so by the "a volume ends where the next one starts" rule the target volume is empty
+                starts.insert(tv + 1, starts[tv])
+                ends.insert(tv + 1, ends[tv])
             vols = []
             for i in range(len(starts)):
                 size = (ends[i] - starts[i]) * 18
@@ -180,6 +185,9 @@ class C17(CheckBase):
             boundary = surf.nsectors
         end = edge.start + edge.nsectors() if edge.length else edge.start
         beyond = edge.length > 0 and end > boundary
+        # two volume letters on the same start track: whether the first of them is empty or runs to the next
+        # *different* start is a matter of reading the DDOS manual; only what both readings agree on is judged
+        ambiguous = surf.variant == 'opus' and any(v is not vol and v.origin == vol.origin for v in surf.volumes)
         drive = case.get('drive')
         if drive is None:
             drive = {0: 0, 1: 2}[si] if ext != 'mmb' else 0
@@ -207,14 +215,14 @@ class C17(CheckBase):
         if not j['ok']:
             out.probe('rejected-at-attach')
             out.sig(case['kind'], case['delta'], remclass, eof_at >= 0, 'rejected-at-attach')
-            if not beyond and eof_at < 0:
+            if not beyond and eof_at < 0 and not ambiguous:
                 out.violate('C17.c', '%s: the image was rejected although every extent lies inside: %s' % (what, j['error'][:160]), dict(desc, what='rejected'), case)
             return
         d = [x for x in j['drives'] if x['n'] == drive]
         if not d or d[0]['format'] is None:
             out.probe('no-filesystem-recognised')
             out.sig(case['kind'], case['delta'], remclass, eof_at >= 0, 'no-filesystem')
-            if not beyond and eof_at < 0:
+            if not beyond and eof_at < 0 and not ambiguous:
                 out.violate('C17.c', '%s: no file system recognised on drive %d although every extent lies inside' % (what, drive), dict(desc, what='no-fs'), case)
             return
         want_fmt = {'opus': 'Opus DDOS', 'acorn': 'Acorn DFS', 'watford': 'Watford DFS'}[surf.variant]
@@ -226,7 +234,7 @@ class C17(CheckBase):
         if not m['ok']:
             out.probe('mount-failed')
             out.sig(case['kind'], case['delta'], remclass, eof_at >= 0, 'mount-failed')
-            if not beyond and eof_at < 0:
+            if not beyond and eof_at < 0 and not ambiguous:
                 out.violate('C17.c', '%s: mounting failed although every extent lies inside: %s' % (what, m['error'][:160]), dict(desc, what='mount'), case)
             return
         idx = [i for i, e in enumerate(m['entries']) if e['name'] == 'EDGE']
@@ -253,6 +261,8 @@ class C17(CheckBase):
             if b['ok'] and b['data'] != body_true:
                 verdict = 'wrong-data-short-medium'
                 out.violate('C17.a', '%s: the medium is physically short, yet a body was delivered that differs from what is recorded' % what, dict(desc, what='short-wrong'), case)
+        elif ambiguous:
+            out.probe('degenerate-volume-table(inside-by-one-reading)')
         else:
             if not b['ok']:
                 verdict = 'spurious-error'
@@ -272,7 +282,9 @@ class C17(CheckBase):
                         what, pos, pos + got, lo, hi, 'volume' if vol.label else 'surface'), dict(desc, what='offset'), case)
                     break
         out.sig(case['kind'], case['delta'], remclass, eof_at >= 0, verdict)
-        if case.get('spot') and 'flux' not in image and eof_at < 0:
+        if ambiguous:
+            out.probe('degenerate-volume-table')
+        if case.get('spot') and 'flux' not in image and eof_at < 0 and not ambiguous:
             self.spot(ctx, out, case, image, data, surf, vol, drive, beyond, body_true, boundary, what, desc)
 
     def foreign(self, body, surf, vol, boundary):
